@@ -273,6 +273,29 @@ class World:
         self.stats["bulk_atoms_max"] = max(self.stats["bulk_atoms_max"], n)
         self.coherent(dst, {"C09"}, "bulk")
 
+    def op_spec(self, op):
+        """a graph given as a whole (atoms, bonds with roles), built through
+        the public mutators in one scheduler step"""
+        dst = op["dst"]
+        if dst in self.slots or len(self.slots) >= self.max_slots:
+            return
+        kind = op["cls"]
+        m = RefGraph(kind)
+        for a, z in op["atoms"]:
+            m.atoms[a] = {"atom_type": z}
+        for x, y, role in op["bonds"]:
+            m.bonds[B(x, y)] = {"reaction": role} if (role and m.is_reaction) else {}
+        real = None
+        if self.real_enabled:
+            R = self.R
+            try:
+                real = R.guarded(R.build, m, None, None, budget=30)
+            except Exception as e:  # noqa: BLE001
+                self.report({"C09"}, f"spec|build-raised:{type(e).__name__}|{model.CLASSNAME[kind]}", repr(e))
+                return
+        self.put_graph(dst, m, real, [], self.new_family())
+        self.coherent(dst, {"C09"}, "spec")
+
     def op_drop(self, op):
         sl = self.slots.get(op["s"])
         if sl is None or sl.locks:
